@@ -25,7 +25,7 @@ func init() {
 // otherLangTags are tags whose language is neither English nor Japanese.  They
 // include languages whose code merely starts with "en"/"ja" (enm, jam, jv).
 var otherLangTags = []string{"und", "fr", "de", "de-CH", "zh", "zh-Hant-TW", "zh-Hans-CN", "ko", "ko-KR", "es", "es-419", "ru", "ar", "he", "hi", "pt-BR", "sr-Latn", "it", "nl", "sv", "tr", "vi", "th",
-	"enm", "jam", "jv", "eo", "mul", "zxx", "und-JP", "und-US", "und-Jpan", "und-Hira", "und-Kana-JP", "und-Latn", "fr-JP", "zh-JP", "ko-US", "x-klingon", "tlh", "yue-Hant-HK"}
+	"enm", "jam", "jv", "eo", "mul", "zxx", "und-JP", "und-US", "und-Jpan", "und-Hira", "und-Kana-JP", "und-Latn", "fr-JP", "zh-JP", "ko-US", "x-klingon", "tlh", "yue-Hant-HK", "fr-u-ca-gregory", "de-1996", "sl-rozaj", "zh-Hant-u-co-pinyin", "fr-x-foo", "de-CH-1901", "es-u-nu-latn", "ar-u-nu-arab", "x-ja", "x-en", "und-x-ja", "fr-t-ja", "ko-t-en"}
 
 // regionalTags are variants of English and Japanese: exercised, not judged.
 var regionalTags = []string{"en-US", "en-GB", "en-AU", "en-Latn", "en-Latn-US", "ja-JP", "ja-Jpan", "ja-Latn", "ja-US", "en-JP", "en-001", "en-u-ca-gregory", "ja-u-ca-japanese"}
